@@ -15,8 +15,9 @@ uint64 halo id, uint32 N, float64 for everything prepare_sim attaches, int64 par
 
 Everything is a pure function of the descriptor.  Every per-halo attribute is a
 *distinct injective function of the halo key* (= the rank of its id among all ids of
-the fixture) with an attribute-specific offset, so a row that ends up at the wrong
-place - or a column that is swapped with another column - cannot alias to the right answer.
+the fixture): an attribute-specific scramble of the keys placed in an attribute-specific
+value band.  A row that ends up at the wrong place, a column swapped with another
+column, or a sort by the wrong column cannot alias to the right answer.
 
 `remove_files(root)` deletes every file below root (directories stay for the next case).
 `build(desc, root)` writes the files and returns a `Fixture` holding the arrays *as
@@ -265,30 +266,34 @@ def build(desc, root):
     rec = np.zeros(H, dtype=hd)  # indexed by key
     k = np.arange(H)
     rec['id'] = ids
-    rec['N'] = 50 + 3 * k + Nnoise  # injective in key
+    # Each attribute group is an injective function of the key through its *own* scramble of the keys, so that no
+    # attribute is monotone in the id: sorting by the wrong column can then not coincide with sorting by id.
+    sc = {g: rng.permutation(H) for g in ('N', 'pos', 'vel', 'sigma', 'r', 'multi', 'randoms', 'deltac', 'fenv', 'shear', 'gaus', 'exp')}
+    rec['N'] = 50 + 3 * sc['N'] + Nnoise
     for j, a in enumerate(['x', 'y', 'z']):
-        rec['x_L2com'][:, j] = _band(_SLOT[a], k, frac[:, j])
+        rec['x_L2com'][:, j] = _band(_SLOT[a], sc['pos'], frac[:, j])
     for j, a in enumerate(['vx', 'vy', 'vz']):
-        rec['v_L2com'][:, j] = -_band(_SLOT[a], k, frac[:, 3 + j])
-    rec['sigmav3d_L2com'] = _band(_SLOT['sigma'], k, frac[:, 6])
-    rec['r98_L2com'] = _band(_SLOT['r98'], k, frac[:, 7]) / 65536.0
-    rec['r25_L2com'] = _band(_SLOT['r25'], H - 1 - k, frac[:, 8]) / 262144.0  # decreasing in key: ratio r98/r25 injective
-    rec['r90_L2com'] = _band(_SLOT['r90'], k, frac[:, 9]) / 65536.0
+        rec['v_L2com'][:, j] = -_band(_SLOT[a], sc['vel'], frac[:, 3 + j])
+    rec['sigmav3d_L2com'] = _band(_SLOT['sigma'], sc['sigma'], frac[:, 6])
+    # r98 increasing and r25 decreasing in the same scrambled key: the ratio r98/r25 (float32) stays injective
+    rec['r98_L2com'] = _band(_SLOT['r98'], sc['r'], frac[:, 7]) / 65536.0
+    rec['r25_L2com'] = _band(_SLOT['r25'], H - 1 - sc['r'], frac[:, 8]) / 262144.0
+    rec['r90_L2com'] = _band(_SLOT['r90'], sc['r'], frac[:, 9]) / 65536.0
     rec['mask_subsample'] = True
-    rec['multi_halos'] = 1.0 + (k + 1.0) / 8.0 + frac[:, 10] / 1024.0
-    rec['randoms'] = (k + 0.5 + (frac[:, 11] - 32) / 256.0) / H
+    rec['multi_halos'] = 1.0 + (sc['multi'] + 1.0) / 8.0 + frac[:, 10] / 1024.0
     Hs = max(H, 1)
-    rec['deltac_rank'] = (k + 0.25 + frac[:, 12] / 1024.0) / Hs - 0.5
-    rec['fenv_rank'] = (k + 0.50 + frac[:, 13] / 1024.0) / Hs - 0.5
-    rec['shear_rank'] = (k + 0.75 + frac[:, 14] / 1024.0) / Hs - 0.5
+    rec['randoms'] = (sc['randoms'] + 0.5 + (frac[:, 11] - 32) / 256.0) / Hs
+    rec['deltac_rank'] = (sc['deltac'] + 0.25 + frac[:, 12] / 1024.0) / Hs - 0.5
+    rec['fenv_rank'] = (sc['fenv'] + 0.50 + frac[:, 13] / 1024.0) / Hs - 0.5
+    rec['shear_rank'] = (sc['shear'] + 0.75 + frac[:, 14] / 1024.0) / Hs - 0.5
     if veldev_1d:
-        rec['randoms_gaus_vrms'] = _band(_SLOT['gz'], k, frac[:, 17])
-        rec['randoms_exp'] = -_band(_SLOT['ez'], k, frac[:, 20])
+        rec['randoms_gaus_vrms'] = _band(_SLOT['gz'], sc['gaus'], frac[:, 17])
+        rec['randoms_exp'] = -_band(_SLOT['ez'], sc['exp'], frac[:, 20])
     else:
         for j, a in enumerate(['gx', 'gy', 'gz']):
-            rec['randoms_gaus_vrms'][:, j] = _band(_SLOT[a], k, frac[:, 15 + j])
+            rec['randoms_gaus_vrms'][:, j] = _band(_SLOT[a], sc['gaus'], frac[:, 15 + j])
         for j, a in enumerate(['ex', 'ey', 'ez']):
-            rec['randoms_exp'][:, j] = -_band(_SLOT[a], k, frac[:, 18 + j])
+            rec['randoms_exp'][:, j] = -_band(_SLOT[a], sc['exp'], frac[:, 18 + j])
 
     halo_tables = [rec[np.array(a, dtype=np.int64)] if len(a) else rec[:0] for a in assign]
 
